@@ -163,31 +163,53 @@ def model_output(font_coq, r):
 
 # ------------------------------------------------------------------ shrinking
 
-def shrink(chk, binp, seed, texts, k, j, rounds=12):
-    """Greedy one-step deletions while model and implementation still disagree (code 1/2/4/6).
-    Returns (ops, Font with the single request)."""
+def _fails(binp, seed, texts, k, j, ops):
+    """Does the (font k, request j) case with shrink ops still disagree?  Returns the Font or None."""
+    f = dump_case(binp, seed, texts, k, j, ops)
+    if f is None or not f.reqs:
+        return None
+    codes, _ = evaluate([f], "shrinkchk")
+    return f if codes.get((0, 0)) in (1, 2, 4, 6, 7) else None
+
+
+def shrink(chk, binp, seed, texts, k, j, rounds=10, budget_s=75):
+    """Greedy deletion while model and implementation still disagree: every round evaluates all one-step
+    candidates (one coqc batch), then tries to apply all individually failing deletions of one kind at once
+    (lookups first, then subtables/rules, then characters), falling back to the first one."""
+    import time
+    t0 = time.time()
     ops = ""
-    best = None
     for _ in range(rounds):
+        if time.time() - t0 > budget_s:
+            break
         args = ["c06", "variants", "--seed", seed, "--texts", texts, "--only", k, "--text", j]
         if ops:
             args += ["--ops", ops]
         rc, out, err = C.run_rbv(binp, args)
-        cands = parse_gen(out)
-        cands = [c for c in cands if c.reqs]
+        cands = [c for c in parse_gen(out) if c.reqs]
         if not cands:
             break
         codes, broken = evaluate(cands, "shrink", per_file=max(1, (len(cands) + C.NPROC - 1) // C.NPROC))
-        pick = None
-        for ci, c in enumerate(cands):
-            if codes.get((ci, 0)) in (1, 2, 4, 6):
-                pick = c
-                break
-        if pick is None:
+        good = [c.variant.split(",")[-1] for ci, c in enumerate(cands) if codes.get((ci, 0)) in (1, 2, 4, 6, 7)]
+        if not good:
             break
-        ops = pick.variant
-        best = pick
-    return ops, best
+        accepted = None
+        for prefix in ("dl", "ds", "dr", "dc", "df"):
+            grp = [o for o in good if o.startswith(prefix + ":")]
+            if len(grp) > 1:
+                # descending indices so that earlier deletions do not shift later ones
+                grp.sort(key=lambda o: [-int(x) for x in o.split(":")[1:]])
+                trial = ",".join(([ops] if ops else []) + grp)
+                if _fails(binp, seed, texts, k, j, trial):
+                    accepted = trial
+                    break
+            if grp:
+                accepted = ",".join(([ops] if ops else []) + [grp[0]])
+                break
+        if accepted is None:
+            accepted = ",".join(([ops] if ops else []) + [good[0]])
+        ops = accepted
+    return ops, None
 
 
 def dump_case(binp, seed, texts, k, j, ops):
@@ -236,7 +258,7 @@ def run(chk):
         return
     seed = chk.seed
     texts = 8
-    nfonts = 1400 if thorough else 330
+    nfonts = 2400 if thorough else 450
     violations = 0
     # ---- corpus first
     cfonts, cfails = corpus_cases(binp)
@@ -296,9 +318,9 @@ def run(chk):
     if nshapes and undefined * 20 > nshapes:
         broken.append("model undefined (buffer limit / unmapped / no answer) on %d of %d shapes" % (undefined, nshapes))
     # ---- disagreements: shrink the first few, report each as a violation with a replay
-    for fi, ri, code in dis[:3]:
+    for n_dis, (fi, ri, code) in enumerate(dis[:3]):
         f = fonts[fi]
-        ops, _ = shrink(chk, binp, seed, texts, f.k, ri)
+        ops = shrink(chk, binp, seed, texts, f.k, ri)[0] if n_dis < 2 else ""
         df = dump_case(binp, seed, texts, f.k, ri, ops)
         if df is None or not df.reqs:
             df = dump_case(binp, seed, texts, f.k, ri, "")
